@@ -100,7 +100,7 @@ def expr(ctx: Ctx, e) -> tuple[str, object]:
             refuse(ctx, e, "unbound name")
         i = ("start", "stop", "step").index(e.attr)
         if b[0] == "fields":
-            return b[1 + i], "OZ"
+            return b[1 + i]
         if b[0] == "v" and b[2] == "NS":
             v = b[1]
             return [f"(fst (fst {v}))", f"(snd (fst {v}))", f"(snd {v})"][i], ["Z", "Z", "OZ"][i]
@@ -365,7 +365,7 @@ def stmts(ctx: Ctx, body: list, node=None) -> str:
                 refuse(ctx, s, "isinstance on a non-someslice variable")
             i, a, bb, c = (ctx.fresh(name + x) for x in ("_int", "_start", "_stop", "_step"))
             c_int = ctx.child(**{name: ("v", i, "Z")})
-            c_sl = ctx.child(**{name: ("fields", a, bb, c)})
+            c_sl = ctx.child(**{name: ("fields", (a, "OZ"), (bb, "OZ"), (c, "OZ"))})
             return (f"(match {b[1]} with SInt {i} => {stmts(c_int, s.body + rest, s)} "
                     f"| SSl {a} {bb} {c} => {stmts(c_sl, orelse + rest, s)} end)")
         nn = none_test(ctx, t)
@@ -390,7 +390,7 @@ def stmts(ctx: Ctx, body: list, node=None) -> str:
             if b and b[0] == "fields":
                 idx = ("start", "stop", "step").index(t.left.attr)
                 nb = list(b)
-                nb[1 + idx] = f"(Some {y})"
+                nb[1 + idx] = (y, "Z")
                 upd = {t.left.value.id: tuple(nb)}
             c_some = ctx.child(**upd)
             br_none = stmts(ctx, (s.body if is_none else orelse) + rest, s)
